@@ -545,6 +545,12 @@ package table
 //@   requires p != nil && vrf != nil
 //@   claims at-return
 //@   at-return requires (newFamily == 0) ==> (rf != bgp.RF_FS_IPv4_UC && rf != bgp.RF_FS_IPv6_UC && rf != bgp.RF_IPv4_UC && rf != bgp.RF_IPv6_UC)
+// from C10 "conditions ... evaluated per the documented model": a prefix-set entry matches a route when it covers the
+// route's prefix and the route's mask length is within the entry's range - ANY covering entry, so the decision is
+// made over all covering entries of the set (the walk over the supernets), not over the longest one alone
+//@ func (*PrefixCondition).Evaluate
+//@   claims at-return
+//@   at-return requires r.IsValid() ==> called(Supernets)
 // from C10 "what is configured ... is what is evaluated": a next-hop list that cannot be turned into a condition is
 // an error - not a statement that silently has no condition (and so matches every route)
 //@ props C10
@@ -552,6 +558,13 @@ package table
 //@   claims post
 //@   ensures len(c) > 0 && result0 == nil ==> result1 != nil
 //@ props C17
+// the per-table route-target index is keyed by (origin, path id): the entry of the route that leaves is taken out
+// BEFORE the entry of the route that comes in is written - the two can share a key (a route re-submitted as a clone of
+// itself), and removing afterwards would remove what was just written
+//@ func (*Table).updateVPNIdx
+//@   claims at-call
+//@   at-call t.vpnIdx.RegisterPath( requires called(UnregisterPath)
+//@   at-call t.vpnIdx.UnregisterPath( requires !called(RegisterPath)
 //@ func CanImportToVrf
 //@   pure
 //@   requires v != nil && path != nil
